@@ -15,6 +15,27 @@ fn id(s: &S) -> Alias {
     a(&hx(s))
 }
 
+/// a row of values as the ValueTuple variant of its arity (One / Two / Three) for part of the cases, Many otherwise
+fn value_tuple(r: &S) -> ValueTuple {
+    let mut vs: Vec<Value> = r.args().iter().map(value).collect();
+    if exprs::shash(r) % 3 == 0 {
+        return ValueTuple::Many(vs);
+    }
+    match vs.len() {
+        1 => ValueTuple::One(vs.remove(0)),
+        2 => {
+            let b = vs.remove(1);
+            ValueTuple::Two(vs.remove(0), b)
+        }
+        3 => {
+            let c = vs.remove(2);
+            let b = vs.remove(1);
+            ValueTuple::Three(vs.remove(0), b, c)
+        }
+        _ => ValueTuple::Many(vs),
+    }
+}
+
 pub fn tref(s: &S) -> TableRef {
     let l = s.args();
     match s.head() {
@@ -44,7 +65,7 @@ pub fn tref(s: &S) -> TableRef {
             // (tvalues alias (row v...)...)
             let rows: Vec<ValueTuple> = l[1..]
                 .iter()
-                .map(|r| ValueTuple::Many(r.args().iter().map(value).collect()))
+                .map(value_tuple)
                 .collect();
             TableRef::ValuesList(rows, id(&l[0]).into_iden())
         }
@@ -131,6 +152,9 @@ pub fn window(s: &S) -> WindowStatement {
             }
             _ => panic!("window clause"),
         }
+    }
+    if exprs::shash(s) % 3 == 0 {
+        return w.take();
     }
     w
 }
@@ -247,7 +271,7 @@ pub fn select(s: &S) -> SelectStatement {
                     "tvalues" if alt => {
                         let rows: Vec<ValueTuple> = t.args()[1..]
                             .iter()
-                            .map(|r| ValueTuple::Many(r.args().iter().map(value).collect()))
+                            .map(value_tuple)
                             .collect();
                         q.from_values(rows, id(&t.args()[0]));
                     }
@@ -425,6 +449,10 @@ pub fn select(s: &S) -> SelectStatement {
             }
             other => panic!("select clause {}", other),
         }
+    }
+    // the builder is handed over by take() for part of the cases (what callers do at the end of a chain)
+    if exprs::shash(s) % 3 == 0 {
+        return q.take();
     }
     q
 }
